@@ -96,6 +96,8 @@ def mk(op, *a):
             return ('bool', r)
         if x[0] == 'bool' and y[0] == 'bool' and op in ('eq', 'ne'):
             return ('bool', (x[1] == y[1]) == (op == 'eq'))
+        if x[0] == 'variant' and y[0] == 'variant' and len(x) == 2 and len(y) == 2 and op in ('eq', 'ne'):
+            return ('bool', (x[1] == y[1]) == (op == 'eq'))
         return (op, x, y)
     if op in ('and', 'or'):
         x, y = a
